@@ -425,6 +425,7 @@ class Engine:
         self.pools = {}
         self.decisions = []
         self._out_cache = {}
+        self.provenance = {}
         ENGINE = self
         rec = None
         try:
